@@ -84,11 +84,21 @@ def app():
     return _APP[0]
 
 
+# Role lists as keystone middleware delivers them (comma separated).  Only
+# the role `admin` itself makes an administrator: the other callers carry
+# ordinary roles, some of which merely contain that word (Swift's
+# ResellerAdmin, Octavia's load-balancer_admin, a custom project_admin).
+ROLES = {'A': 'member', 'B': 'member,ResellerAdmin',
+         'M': 'load-balancer_admin,reader,project_admin',
+         'ADM': 'member,admin'}
+
+
 def headers(who):
     c = W.CALLERS[who]
+    roles = ROLES.get(who, 'admin' if c.admin else 'member')
+    assert ('admin' in roles.split(',')) == bool(c.admin)
     return {'X-Identity-Status': 'Confirmed', 'X-Project-Id': c.project,
-            'X-User-Id': 'u-' + c.project,
-            'X-Roles': 'admin' if c.admin else 'member',
+            'X-User-Id': 'u-' + c.project, 'X-Roles': roles,
             'Accept': '*/*'}
 
 
